@@ -67,9 +67,49 @@ fn items(prop: &str) -> Option<Vec<Item>> {
         "C07" => sims::c07(),
         "C08" => race::c08(),
         "C12" => chan::c12(),
+        "C14" => chan::c14(),
         "C19" => sims::c19(),
         _ => return None,
     })
+}
+
+/// Runs a child process with a wall-clock limit. Returns (exit code or None if
+/// killed by a signal / timed out, stdout, short stderr tail).
+fn run_child(exe: &std::path::Path, args: &[&str], limit_s: f64) -> std::io::Result<(Option<i32>, Vec<u8>, String)> {
+    use std::io::Read;
+    let mut child = std::process::Command::new(exe)
+        .args(args)
+        .stdout(std::process::Stdio::piped())
+        .stderr(std::process::Stdio::null())
+        .spawn()?;
+    let mut stdout = child.stdout.take().unwrap();
+    let reader = std::thread::spawn(move || {
+        let mut buf = Vec::new();
+        let _ = stdout.read_to_end(&mut buf);
+        buf
+    });
+    let t0 = std::time::Instant::now();
+    loop {
+        match child.try_wait()? {
+            Some(st) => {
+                let out = reader.join().unwrap_or_default();
+                let note = match st.code() {
+                    Some(c) => format!("exit code {}", c),
+                    None => format!("killed by a signal ({:?})", st),
+                };
+                return Ok((st.code(), out, note));
+            }
+            None => {
+                if t0.elapsed().as_secs_f64() > limit_s {
+                    let _ = child.kill();
+                    let _ = child.wait();
+                    let out = reader.join().unwrap_or_default();
+                    return Ok((None, out, format!("no result after {:.0} s (killed)", limit_s)));
+                }
+                std::thread::sleep(std::time::Duration::from_millis(20));
+            }
+        }
+    }
 }
 
 fn report_json(r: &ScenarioReport) -> Value {
@@ -197,12 +237,17 @@ pub fn main() {
                 if i >= n {
                     break;
                 }
-                let o = std::process::Command::new(&exe)
-                    .args(["one", &prop, &tier, &i.to_string(), &format!("{}", budget)])
-                    .output();
+                let o = run_child(&exe, &["one", &prop, &tier, &i.to_string(), &format!("{}", budget)], (budget * 10.0).max(300.0));
                 let v = match o {
-                    Ok(o) if o.status.success() => serde_json::from_slice::<Value>(o.stdout.split(|b| *b == b'\n').filter(|l| !l.is_empty()).last().unwrap_or(b"null")).unwrap_or(Value::Null),
-                    Ok(o) => json!({"scenario": its[i].sc.name, "machinery": format!("child exited with {:?}: {}", o.status.code(), String::from_utf8_lossy(&o.stderr).chars().rev().take(400).collect::<String>().chars().rev().collect::<String>())}),
+                    Ok((Some(0), out, _)) => serde_json::from_slice::<Value>(out.split(|b| *b == b'\n').filter(|l| !l.is_empty()).last().unwrap_or(b"null")).unwrap_or(Value::Null),
+                    // The process running the scenario was killed by a signal
+                    // (memory corruption, stack exhaustion) or had to be killed
+                    // because an execution never ended: on the unchanged tree
+                    // neither happens, so this is a failure of the code under
+                    // test, reported as such.
+                    Ok((None, _, err)) => json!({"scenario": its[i].sc.name, "executions_all_bounds": 1, "distinct_outcomes": 0,
+                        "violation": {"choices": [], "observations": [], "message": format!("the process exploring this scenario crashed or did not terminate: {}", err)}}),
+                    Ok((Some(c), _, err)) => json!({"scenario": its[i].sc.name, "machinery": format!("child exited with {}: {}", c, err)}),
                     Err(e) => json!({"scenario": its[i].sc.name, "machinery": format!("cannot spawn child: {}", e)}),
                 };
                 results.lock().unwrap()[i] = Some(v);
